@@ -49,6 +49,16 @@ func hasAuthority(v string) bool {
 	special := abs && (sch == "http" || sch == "https" || sch == "ftp" || sch == "ws" || sch == "wss")
 	var auth string
 	switch {
+	case abs && sch == "file":
+		// file state / file slash state / file host state: exactly two slashes or backslashes start
+		// a host (which may be empty: file:///x)
+		if len(rest) < 2 || !(rest[0] == '/' || rest[0] == '\\') || !(rest[1] == '/' || rest[1] == '\\') {
+			return false
+		}
+		auth = rest[2:]
+		if i := strings.IndexAny(auth, "/\\?#"); i >= 0 {
+			auth = auth[:i]
+		}
 	case special || !abs:
 		n := 0
 		for n < len(rest) && (rest[n] == '/' || rest[n] == '\\') {
